@@ -117,9 +117,10 @@ def k12_shapes(tier):
             out.append({'ins': [a], 'outs': [b]})
     out += [{'ins': [], 'outs': []}, {'ins': [], 'outs': [1]}, {'ins': [2], 'outs': []},
             {'ins': [0, 252], 'outs': [253, 1]}, {'ins': [1, 0], 'outs': [0, 0]}]
+    # counts on the varint width boundary (252 / 253 items)
+    out += [{'ins': [0] * 253, 'outs': [0]}, {'ins': [1], 'outs': [0] * 253}]
     if tier == 'thorough':
-        out += [{'ins': [65535], 'outs': [1]}, {'ins': [1], 'outs': [65536]},
-                {'ins': [0] * 253, 'outs': [0]}, {'ins': [1], 'outs': [0] * 253},
+        out += [{'ins': [0] * 252, 'outs': [0] * 254}, {'ins': [65535], 'outs': [1]}, {'ins': [1], 'outs': [65536]},
                 {'ins': [254, 2], 'outs': [2, 254]}, {'ins': [0, 0, 0], 'outs': [1, 1, 1]}]
     return out
 
@@ -206,11 +207,11 @@ KERNELS = [
            encodes=['electrumx/lib/tx.py:Tx.serialize', 'TxInput.serialize', 'TxOutput.serialize', 'read_tx',
                     'read_many', 'read_input', 'read_output', 'read_varint', 'read_varbytes',
                     'Deserializer.read_tx_and_hash', 'electrumx/lib/util.py:pack_varint', 'pack_varbytes'],
-           bounds='<= 2 inputs / outputs (plus 253-count shapes in thorough), script lengths in '
+           bounds='<= 2 inputs / outputs plus shapes with 253 (thorough: also 252 / 254) inputs or outputs, script lengths in '
                   '{0,1,2,252,253,254} with symbolic content and {65535,65536} with concrete content; every '
                   'other byte symbolic; every cut point (for the 64 KiB shapes: every cut within 120 bytes of '
                   'either end and every 4099th in between)',
-           outside='non-canonical varints, other script lengths, counts above 253',
+           outside='non-canonical varints, other script lengths, counts above 254',
            assumptions=['double_sha256 as an uninterpreted function (hash equality proved by congruence)'],
            witnesses=1),
     Kernel('K3', k3, k3_shapes, setup=_setup,
